@@ -8,6 +8,7 @@ import (
 	_ "verif/htlab/internal/props/c04"
 	_ "verif/htlab/internal/props/c05"
 	_ "verif/htlab/internal/props/c06"
+	_ "verif/htlab/internal/props/c07"
 	_ "verif/htlab/internal/props/c08"
 	_ "verif/htlab/internal/props/c09"
 	_ "verif/htlab/internal/props/c10"
